@@ -404,7 +404,7 @@ fn write_long_bracket(value: &[u8]) -> Option<String> {
     equals.push(b']');
 
     loop {
-        if value.find(&equals).is_none() {
+        if value.find(&equals).is_none() && !value.ends_with(&equals[..equals.len() - 1]) {
             break;
         } else {
             i += 1;
